@@ -1,9 +1,10 @@
 pub mod c01;
+pub mod c02;
 
 use crate::harness::Property;
 
 pub fn all() -> Vec<Box<dyn Property>> {
-    vec![Box::new(c01::C01)]
+    vec![Box::new(c01::C01), Box::new(c02::C02)]
 }
 
 pub fn by_id(id: &str) -> Option<Box<dyn Property>> {
